@@ -141,8 +141,26 @@ SpsVectors ==
 
 (* ------------------------------------------------------------------- PPS *)
 \* p: record; the tail (transform_8x8_mode_flag ...) is present iff p.tail
+\* slice groups (7.3.2.2): p.groups = num_slice_groups_minus1; the values inside are fixed per position
+\*   type 0: run_length_minus1[0..groups]          type 2: top_left / bottom_right[0..groups-1]
+\*   types 3..5: change direction flag + change rate    type 6: pic_size_in_map_units_minus1 + slice_group_id[0..that], each
+\*   Ceil(Log2(groups + 1)) bits wide;   type 1: nothing more
+CeilLog2(n) == CHOOSE k \in 0 .. 8 : 2 ^ k >= n /\ (k = 0 \/ 2 ^ (k - 1) < n)
+GroupRun(i) == 3 * i + 1
+GroupTL(i) == 2 * i
+GroupBR(i) == 2 * i + 5
+GroupIdOf(p, i) == i % (p.groups + 1)
+SliceGroupBits(p) ==
+    UECode(p.groups)
+    \o (IF p.groups = 0 THEN <<>>
+        ELSE UECode(p.maptype)
+             \o (CASE p.maptype = 0 -> Cat([i \in 1 .. (p.groups + 1) |-> UECode(GroupRun(i - 1))])
+                   [] p.maptype = 2 -> Cat([i \in 1 .. p.groups |-> UECode(GroupTL(i - 1)) \o UECode(GroupBR(i - 1))])
+                   [] p.maptype \in {3, 4, 5} -> B(p.gdir) \o UECode(p.grate)
+                   [] p.maptype = 6 -> UECode(p.gmapunits) \o Cat([i \in 1 .. (p.gmapunits + 1) |-> U(CeilLog2(p.groups + 1), GroupIdOf(p, i - 1))])
+                   [] OTHER -> <<>>))
 PpsData(p, sps) ==
-    UECode(p.id) \o UECode(p.spsid) \o B(p.cabac) \o B(p.bottomfield) \o UECode(0)
+    UECode(p.id) \o UECode(p.spsid) \o B(p.cabac) \o B(p.bottomfield) \o SliceGroupBits(p)
     \o UECode(p.l0) \o UECode(p.l1) \o B(p.wpred) \o U(2, p.wbipred) \o SECode(p.qp) \o SECode(p.qs) \o SECode(p.cqp)
     \o B(p.deblock) \o B(p.cintra) \o B(p.redundant)
     \o (IF p.tail THEN B(p.t8x8) \o B(p.pscaling # "none")
@@ -151,7 +169,8 @@ PpsData(p, sps) ==
         ELSE <<>>)
 PpsNal(p, sps) == NalBytes(104, PpsData(p, sps))
 PpsBase == [id |-> 0, spsid |-> 0, cabac |-> TRUE, bottomfield |-> FALSE, l0 |-> 0, l1 |-> 0, wpred |-> FALSE, wbipred |-> 0, qp |-> 0, qs |-> 0,
-            cqp |-> 0, deblock |-> TRUE, cintra |-> FALSE, redundant |-> FALSE, tail |-> TRUE, t8x8 |-> TRUE, pscaling |-> "none", cqp2 |-> -2]
+            cqp |-> 0, deblock |-> TRUE, cintra |-> FALSE, redundant |-> FALSE, tail |-> TRUE, t8x8 |-> TRUE, pscaling |-> "none", cqp2 |-> -2,
+            groups |-> 0, maptype |-> 0, gdir |-> FALSE, grate |-> 0, gmapunits |-> 0]
 PpsFieldVals == [id : {0, 1, 7, 255}] \cup [cabac : BOOLEAN] \cup [bottomfield : BOOLEAN] \cup [l0 : {0, 1, 31}] \cup [l1 : {0, 1, 31}] \cup [wpred : BOOLEAN]
                 \cup [wbipred : {0, 1, 2}] \cup [qp : {0, -26, 25, 1}] \cup [qs : {0, -26, 25}] \cup [cqp : {0, -12, 12}] \cup [deblock : BOOLEAN]
                 \cup [cintra : BOOLEAN] \cup [redundant : BOOLEAN] \cup [tail : BOOLEAN] \cup [t8x8 : BOOLEAN] \cup [pscaling : {"none", "flat", "ramp", "wrap", "all-ramp"}]
@@ -159,7 +178,11 @@ PpsFieldVals == [id : {0, 1, 7, 255}] \cup [cabac : BOOLEAN] \cup [bottomfield :
 \* pps id / sps id assignments with pps id # sps id (Y2)
 IdPairs == {<<0, 0>>, <<1, 0>>, <<0, 1>>, <<2, 1>>, <<7, 31>>, <<255, 3>>}
 \* second base: no 8x8 transform - the six 4x4 scaling lists are still coded when the matrix flag is set
+\* slice group vectors: every map type with 2, 3 and 8 groups; type 6 with 1, 4 and 9 map units
+GroupVectors == {[PpsBase EXCEPT !.groups = g, !.maptype = t, !.gdir = d, !.grate = r, !.gmapunits = u, !.deblock = db] :
+                    g \in {1, 2, 7}, t \in 0 .. 6, d \in BOOLEAN, r \in {0, 5}, u \in {0, 3, 8}, db \in BOOLEAN}
 PpsVectors == {Override(b, o) : b \in {PpsBase, [PpsBase EXCEPT !.t8x8 = FALSE, !.pscaling = "flat"]}, o \in PpsFieldVals}
+              \cup {v \in GroupVectors : (v.maptype \notin {3, 4, 5} => ~v.gdir /\ v.grate = 0) /\ (v.maptype # 6 => v.gmapunits = 0)}
               \cup (IF Pairwise THEN {Override(Override(PpsBase, o1), o2) : o1 \in PpsFieldVals, o2 \in PpsFieldVals} ELSE {})
 
 (* ----------------------------------------------------------------- slice *)
@@ -179,6 +202,10 @@ Marking(s, nalType, refIdc) ==
     IF refIdc = 0 THEN <<>>
     ELSE IF nalType = 5 THEN B(s.nooutput) \o B(s.longterm)
     ELSE B(s.adaptive) \o (IF s.adaptive THEN UECode(1) \o UECode(3) \o UECode(3) \o UECode(2) \o UECode(5) \o UECode(4) \o UECode(6) \o UECode(0) ELSE <<>>)
+\* PicSizeInMapUnits = PicWidthInMbs * PicHeightInMapUnits (7-17); smallest k with 2^k >= PicSizeInMapUnits / rate + 1
+PicSizeInMapUnits(sps) == (sps.wmbs + 1) * (sps.hmap + 1)
+ChangeCycleBits(p, sps) == LET rate == p.grate + 1  n == PicSizeInMapUnits(sps) IN
+                           CHOOSE k \in 0 .. 31 : (2 ^ k) * rate >= n + rate /\ (k = 0 \/ (2 ^ (k - 1)) * rate < n + rate)
 SliceData(s, p, sps, nalType, refIdc) ==
     LET k == SliceKind(s.type) IN
     UECode(s.firstmb) \o UECode(s.type) \o UECode(p.id)
@@ -200,6 +227,8 @@ SliceData(s, p, sps, nalType, refIdc) ==
     \o SECode(s.qpdelta)
     \o (IF k \in {3, 4} THEN (IF k = 3 THEN B(s.spswitch) ELSE <<>>) \o SECode(s.qsdelta) ELSE <<>>)
     \o (IF p.deblock THEN UECode(s.deblockidc) \o (IF s.deblockidc # 1 THEN SECode(s.alpha) \o SECode(s.beta) ELSE <<>>) ELSE <<>>)
+    \* slice_group_change_cycle: Ceil(Log2(PicSizeInMapUnits / SliceGroupChangeRate + 1)) bits (7.4.3; exact division), all ones
+    \o (IF p.groups > 0 /\ p.maptype \in {3, 4, 5} THEN Ones(ChangeCycleBits(p, sps)) ELSE <<>>)
 \* the slice NAL: header bits, then a 1 bit and filler standing in for slice data (never all zero)
 SliceHdrBits(s, p, sps, nalType, refIdc) == SliceData(s, p, sps, nalType, refIdc)
 SliceNal(s, p, sps, nalType, refIdc) ==
@@ -228,7 +257,10 @@ SliceSpsSet == {SpsBase,
                 [SpsBase EXCEPT !.id = 2, !.profile = 66]}
 SlicePpsSet(sps) == {[PpsBase EXCEPT !.id = i, !.spsid = sps.id] : i \in {0, 1, 255}}
                     \cup {[PpsBase EXCEPT !.id = 5, !.spsid = sps.id, !.bottomfield = TRUE, !.redundant = TRUE, !.wpred = TRUE, !.wbipred = 1, !.cabac = FALSE, !.l0 = 1, !.l1 = 2],
-                          [PpsBase EXCEPT !.id = 6, !.spsid = sps.id, !.deblock = FALSE, !.wbipred = 2]}
+                          [PpsBase EXCEPT !.id = 6, !.spsid = sps.id, !.deblock = FALSE, !.wbipred = 2],
+                          \* slice groups with an evolving map: the header ends with slice_group_change_cycle
+                          [PpsBase EXCEPT !.id = 7, !.spsid = sps.id, !.groups = 1, !.maptype = 3, !.grate = 0],
+                          [PpsBase EXCEPT !.id = 8, !.spsid = sps.id, !.groups = 1, !.maptype = 5, !.gdir = TRUE, !.grate = 5, !.deblock = FALSE]}
 SliceCtx == UNION {{<<x, p>> : p \in SlicePpsSet(x)} : x \in SliceSpsSet}
 SliceCases == {[s |-> Override(SliceBase, o), p |-> cx[2], sps |-> cx[1], nal |-> nt, ref |-> ri] :
                   o \in SliceFieldVals, cx \in SliceCtx, nt \in {1, 5}, ri \in {0, 1, 3}}
@@ -270,5 +302,6 @@ Export == (DoExport /\ phase = "serialised") =>
                                 othersps |-> SpsNal([c.sps EXCEPT !.id = c.p.id, !.log2fn = 9, !.fmo = ~c.sps.fmo]),   \* a different SPS stored under the PPS's own id
                                 nal |-> SliceNal(c.s, c.p, c.sps, c.nal, c.ref), size |-> SliceHdrSize(c.s, c.p, c.sps, c.nal, c.ref),
                                 kind |-> SliceKind(c.s.type), poctype |-> c.sps.poctype, fmo |-> c.sps.fmo, sepcol |-> (c.sps.profile \in HighProfiles /\ c.sps.chroma = 3 /\ c.sps.sepcol),
-                                deltazero |-> c.sps.deltazero]))
+                                deltazero |-> c.sps.deltazero,
+                                changecycle |-> IF c.p.groups > 0 /\ c.p.maptype \in {3, 4, 5} THEN 2 ^ ChangeCycleBits(c.p, c.sps) - 1 ELSE -1]))
 =============================================================================
